@@ -67,7 +67,7 @@ def random_file(r, fid, nmarkers, nblocks=None, kind=None, u8=None):
 
 # ----------------------------------------------------------------------------- running a batch of executions
 def script_for(execs):
-    lines = ["init"]
+    lines = ["init", "leakcheck"]
     did = 0
     for xi, x in enumerate(execs):
         lines.append("note exec%d" % xi)
@@ -97,6 +97,7 @@ def script_for(execs):
         if x.get("api") != "rules":
             lines.append("sdestroy 0")
         lines.append("rdestroy 0")
+        lines.append("leakcheck")
     lines.append("finalize")
     return lines
 
@@ -143,8 +144,17 @@ def validate(res, prop, execs, variant, name, tolerate_d9=True):
         return 0
     records = []
     owner = []    # trace line -> execution index
+    base = [ev["bytes"] for ev in run.events[:3] if ev["e"] == "LeakCheck"]
+    heap = {"bytes": base[0] if base else None}
     for xi, x in enumerate(execs):
         evs = per.get(xi, [])
+        lc = [ev["bytes"] for ev in evs if ev["e"] == "LeakCheck"]
+        prev = heap.get("bytes")
+        if lc:
+            heap["bytes"] = lc[-1]
+        if lc and prev is not None and lc[-1] > prev:
+            rp = yv.save_replay(prop, "%s_leak_exec%d" % (name, xi), {"exec": strip(x), "variant": variant, "stderr": run.stderr[-3000:]})
+            res.violation("memory leaked by execution %d (kind=%s): every object was destroyed but the live heap grew by %d bytes" % (xi, x.get("kind"), lc[-1] - prev), rp)
         msg = check_rules_info(x, evs)
         if msg:
             raise yv.Broken("execution %d (%s): %s" % (xi, x.get("kind"), msg))
@@ -330,7 +340,7 @@ def c10(res, tier, seed):
                 elif outcome == "timeout":
                     to = f["size"] > 0 and f["blocks"][0]["size"] > 0
                 elif outcome == "notready-resume":
-                    nr = sorted(set(r.randint(0, len(sizes) + 1) for _ in range(r.randint(1, 2))))
+                    nr = sorted(set(r.randint(0, len(sizes)) for _ in range(r.randint(1, 2))))   # block loop only (C13 owns the rest)
                 elif outcome == "notready-abandon":
                     nr = [r.randint(0, len(sizes))]
                     maxcalls = 1
